@@ -133,6 +133,11 @@ class SmartList(list):
             raise ValueError("List only supports elements of type '%s'" %
                              self._content_type)
 
+        # A Section must not become its own ancestor
+        owner = getattr(self[key], "_parent", None)
+        if hasattr(owner, "_validate_no_cycle") and hasattr(value, "sections"):
+            owner._validate_no_cycle(value)
+
         # If required remove new object from its old parents child-list
         if hasattr(value, "_parent") and (value._parent and value in value._parent):
             value._parent.remove(value)
@@ -247,6 +252,20 @@ class Sectionable(BaseObject):
         """
         return self._sections
 
+    def _validate_no_cycle(self, section):
+        """
+        Raises a ValueError if *section* is this object or one of its parents;
+        adding it as a child would make it its own ancestor.
+
+        :param section: odML Section object.
+        """
+        par = self
+        while par is not None:
+            if par is section:
+                raise ValueError("A Section cannot be added to itself "
+                                 "or to one of its own subsections.")
+            par = par.parent
+
     def insert(self, position, section):
         """
         Insert a Section at the child-list position. A ValueError will be raised,
@@ -259,6 +278,8 @@ class Sectionable(BaseObject):
         if isinstance(section, BaseSection):
             if section.name in self._sections:
                 raise ValueError("Section with name '%s' already exists." % section.name)
+
+            self._validate_no_cycle(section)
 
             # If required remove the Section from its previous parent first,
             # an object must never be a child of two parents.
@@ -278,6 +299,7 @@ class Sectionable(BaseObject):
         """
         from odml.section import BaseSection
         if isinstance(section, BaseSection):
+            self._validate_no_cycle(section)
             old_parent = section._parent
             self._sections.append(section)
             # If required remove the Section from its previous parent,
